@@ -73,6 +73,8 @@ type PathResult struct {
 	Assumptions []string
 	Stubs       map[string]bool
 	MaxAlloc    int
+	ConcreteFails []string // concrete (conformance) mode: ids of failed asserts
+	UsedUF      bool
 }
 
 // Config is shared, read-only configuration for all paths of a harness run.
@@ -293,6 +295,11 @@ func (i *interpreter) assert(cond value, id string) {
 			i.res.Discharged++
 			return
 		}
+		if i.cfg.Concrete != nil {
+			// conformance mode: behave like the native Assert (log and continue)
+			i.res.ConcreteFails = append(i.res.ConcreteFails, id)
+			return
+		}
 		i.fail(id, "", nil)
 		panic(pathAbort{"end", "assertion failed concretely: " + id})
 	case sv:
@@ -320,6 +327,10 @@ func (i *interpreter) assert(cond value, id string) {
 
 // fail records a failure for the current pc (concrete failure: every input on this path fails).
 func (i *interpreter) fail(id, msg string, _ *smt.Term) {
+	if i.cfg.Concrete != nil {
+		i.res.ConcreteFails = append(i.res.ConcreteFails, id)
+		return
+	}
 	r, m := i.check(nil, true)
 	if r != smt.Sat {
 		if r == smt.Unknown {
